@@ -336,7 +336,7 @@ func (vc *VC) addrTarget(addr ssa.Value, w int, tw *typedWrites) {
 			continue
 		case *ssa.IndexAddr:
 			if sl, ok := a.X.Type().Underlying().(*types.Slice); ok {
-				tw.addWhole(vc.tid(types.NewSlice(sl.Elem())))
+				tw.addWhole(vc.eng.arrTid(sl.Elem()))
 				return
 			}
 			// element of an array reached through a pointer: the enclosing object, any index
@@ -413,6 +413,8 @@ func (vc *VC) contractWrites(act *Act, st *State, fc *FuncContract, names []stri
 				tw.setAll("callee " + fc.Key + " modifies " + it.text + " (untyped)")
 			case it.kind == "range" && it.fhi > 0:
 				tw.addRange(vc.tid(it.otype), it.flo, it.fhi)
+			case it.otid > 0:
+				tw.addWhole(it.otid)
 			default:
 				tw.addWhole(vc.tid(it.otype))
 			}
@@ -523,7 +525,7 @@ func (vc *VC) loopEffects(act *Act, body map[*ssa.BasicBlock]bool) loopFacts {
 					}
 				case *ssa.MapUpdate:
 					lf.writesHeap = true
-					lf.typed.addWhole(vc.tid(i.Map.Type().Underlying()))
+					lf.typed.addWhole(vc.eng.mapTid(i.Map.Type()))
 				case *ssa.MakeClosure:
 					lf.allocs = true
 					if cf, ok := i.Fn.(*ssa.Function); ok && depth < 4 {
@@ -543,11 +545,11 @@ func (vc *VC) loopEffects(act *Act, body map[*ssa.BasicBlock]bool) loopFacts {
 							lf.writesHeap = true
 							lf.allocs = true
 							if sl, ok := i.Call.Args[0].Type().Underlying().(*types.Slice); ok {
-								lf.typed.addWhole(vc.tid(types.NewSlice(sl.Elem())))
+								lf.typed.addWhole(vc.eng.arrTid(sl.Elem()))
 							}
 						case "delete":
 							lf.writesHeap = true
-							lf.typed.addWhole(vc.tid(i.Call.Args[0].Type().Underlying()))
+							lf.typed.addWhole(vc.eng.mapTid(i.Call.Args[0].Type()))
 						case "close":
 							lf.writesHeap = true
 						}
@@ -665,6 +667,10 @@ func (vc *VC) cutLoop(act *Act, h *ssa.BasicBlock, st *State, phiVals map[*ssa.P
 	body := loopBody(h)
 	lf := vc.loopEffects(act, body)
 	ns := st.clone()
+	if act.loopCutPos == nil {
+		act.loopCutPos = map[*ssa.BasicBlock]int{}
+	}
+	act.loopCutPos[h] = len(vc.asserts)
 	// 2. havoc
 	for phi := range phiVals {
 		v := vc.freshVal(ns, "lp_"+sanitize(phi.Comment), phi.Type())
@@ -825,6 +831,9 @@ func (vc *VC) havocTyped(act *Act, ns, before *State, lf loopFacts) {
 			if tw.whole[id] {
 				continue
 			}
+			if t, known := vc.seenRefTid[r]; known && t != id {
+				continue
+			}
 			for _, pr := range [][2]string{{nmi, before.mi}, {nmr, before.mr}} {
 				row := fmt.Sprintf("(select %s %s)", pr[1], r)
 				for _, rg := range tw.ranges[id] {
@@ -936,7 +945,7 @@ func (vc *VC) checkLoopPreserved(act *Act, h *ssa.BasicBlock, e inEdge, lc *Loop
 	}
 	for n, inv := range lc.Invariants {
 		f := vc.evalBool(vc.specEnv(act, e.st, act.entry, "invariant", h), inv)
-		vc.oblige(e.st, &Obligation{Name: fmt.Sprintf("%s#loop%d#inv-preserved#%s", vc.eng.shortName(act.fn), ordinal, clauseName(inv, n)), Kind: "loop-invariant-preserved", Clause: inv.Text, Tags: vc.clauseTags(act.fc, inv), Src: fmt.Sprintf("%s:%d", shortFile(inv.File), inv.Line)}, f)
+		vc.oblige(e.st, &Obligation{Name: fmt.Sprintf("%s#loop%d#inv-preserved#%s", vc.eng.shortName(act.fn), ordinal, clauseName(inv, n)), Kind: "loop-invariant-preserved", Clause: inv.Text, Tags: vc.clauseTags(act.fc, inv), Src: fmt.Sprintf("%s:%d", shortFile(inv.File), inv.Line), localFrom: act.loopCutPos[h]}, f)
 	}
 	for phi, v := range saved {
 		act.env[phi] = v
@@ -1170,7 +1179,7 @@ func (vc *VC) execInstr(act *Act, st *State, ins ssa.Instruction) {
 		st.mr = vc.def("MR", memSort, fmt.Sprintf("(store %s %s %s)", st.mr, ref, zi))
 		act.env[i] = SliceV{ref, "0", ln, cp}
 	case *ssa.MakeMap:
-		p := vc.allocObj(st, i.Type().Underlying(), false)
+		p := vc.allocMapObj(st, i.Type())
 		zi := vc.fresh("zrow", "(Array Int Int)")
 		vc.assume(st, fmt.Sprintf("(forall ((j Int)) (! (= (select %s j) 0) :pattern ((select %s j))))", zi, zi))
 		st.mi = vc.def("MI", memSort, fmt.Sprintf("(store %s %s %s)", st.mi, p.ref, zi))
@@ -1739,6 +1748,9 @@ func (vc *VC) next(act *Act, st *State, i *ssa.Next) {
 	vc.assume(st, implies(eq(ok, "1"), fmt.Sprintf("(not (select %s %s))", vis, key)))
 	w := width(mt.Elem()) + 1
 	slot := vc.mapSlot("q", w)
+	if !isAtom(m.ref) {
+		m = MapV{vc.def("mref", "Int", m.ref)} // patterns must not contain ite
+	}
 	vc.assume(st, implies(eq(ok, "0"), fmt.Sprintf("(forall ((q Int)) (! (=> (and (not (= %s 0)) (= (select (select %s %s) %s) 1)) (select %s q)) :pattern ((select (select %s %s) %s)) :pattern ((select %s q))))", m.ref, st.mi, m.ref, slot, vis, st.mi, m.ref, slot, vis)))
 	st.visited[rid] = vc.def("vis", "(Array Int Bool)", fmt.Sprintf("(ite (= %s 1) (store %s %s true) %s)", ok, vis, key, vis))
 	// mapnext events: arg0 is 1 when an entry was delivered, 0 at the end of the iteration
